@@ -44,6 +44,31 @@ def take(x, dim, j):
     return x[(slice(None),) * dim + (j,)]
 
 
+def tdobs(x):
+    """observation of a tensordict INCLUDING dim names (its own and those of its nested tensordicts) and lock state"""
+    o = progs.observe(x)
+    o["names"] = list(x.names)
+    o["names_len_ok"] = len(x.names) == x.batch_dims
+    o["nested_names"] = {str(k): list(v.names) for k, v in sorted(x.items(True), key=lambda kv: str(kv[0])) if is_tensor_collection(v)}
+    return o
+
+
+def snapshot(x):
+    """deep, value-level snapshot of an argument (nothing in it aliases the argument)"""
+    if is_tensor_collection(x):
+        return ["td", tdobs(x), bool(x.is_locked)]
+    if isinstance(x, torch.Tensor):
+        return ["ten", list(x.shape), x.reshape(-1).tolist()]
+    return ["obj", repr(x)]
+
+
+def stacked_names(sample_names, o, rank_after):
+    """names of torch.stack-ing named samples along o as vmap defines them: the sample's names, None at the new dim"""
+    n = list(sample_names)
+    n.insert(o % rank_after, None)
+    return n
+
+
 # ------------------------------------------------------------------------------------------------ (a) elements
 def elem_td(bs, feats, names):
     d = {}
@@ -188,16 +213,18 @@ def gen_arg(rng, B, depth, inherited=NOTSET):
     return [Sym(kind), sh], d
 
 
-def build_arg(desc):
+def build_arg(desc, named=False, locked=False):
     if desc == "obj":
         return 5
     if desc[0] == "td":
         bs = desc[1]
-        return TensorDict({"a": torch.arange(prod(bs) * 2, dtype=torch.int64).reshape(bs + [2]) + 1,
-                           "b": torch.arange(prod(bs), dtype=torch.int64).reshape(bs) * 3}, batch_size=bs)
+        td = TensorDict({"a": torch.arange(prod(bs) * 2, dtype=torch.int64).reshape(bs + [2]) + 1,
+                         "b": torch.arange(prod(bs), dtype=torch.int64).reshape(bs) * 3}, batch_size=bs,
+                        names=[f"d{i}" for i in range(len(bs))] if named else None)
+        return td.lock_() if locked else td
     if desc[0] == "ten":
         return torch.arange(prod(desc[1]), dtype=torch.int64).reshape(desc[1]) + 7
-    kids = [build_arg(k) for k in desc[1:]]
+    kids = [build_arg(k, named, locked) for k in desc[1:]]
     return tuple(kids) if desc[0] == "tup" else kids
 
 
@@ -235,7 +262,7 @@ def py_bcast(prefix, tree):
 def gen_outs(rng, flat_args, flat_dims, B):
     """(output spec, out_dims description); spec leaves: ('in', i) ('der', i) ('cten', shape) ('ctd', bs) ('obj',)"""
     def orank(leaf):
-        if leaf[0] in ("in", "der"):
+        if leaf[0] in ("in", "der", "wr"):
             a, d = flat_args[leaf[1]], flat_dims[leaf[1]] if flat_dims else None
             if a == "obj":
                 return None
@@ -247,7 +274,7 @@ def gen_outs(rng, flat_args, flat_dims, B):
     def leaf():
         x = rng.random()
         if flat_args and x < 0.7:
-            return [rng.choice(["in", "in", "der"]), rng.randrange(len(flat_args))]
+            return [rng.choice(["in", "in", "der", "wr"]), rng.randrange(len(flat_args))]
         if x < 0.8:
             return ["cten", [rng.choice([1, 2, 3, B]) for _ in range(rng.choice([0, 1, 2]))]]
         if x < 0.92:
@@ -295,12 +322,19 @@ def gen_outs(rng, flat_args, flat_dims, B):
     return spec, od
 
 
-def make_out(spec, flat):
+def make_out(spec, flat, writable=()):
     if spec[0] in ("tup", "lst"):
-        kids = [make_out(k, flat) for k in spec[1:]]
+        kids = [make_out(k, flat, writable) for k in spec[1:]]
         return tuple(kids) if spec[0] == "tup" else kids
     if spec[0] == "in":
         return flat[spec[1]]
+    if spec[0] == "wr":
+        # the function WRITES a new entry into the argument it received and returns it (only through an un-batched, unlocked
+        # tensordict argument: vmap hands over a private shallow copy, so the caller's tensordict must not see the entry)
+        x = flat[spec[1]]
+        if spec[1] in writable and is_tensor_collection(x):
+            x.set("z", x.get("b") * 2 + 5)
+        return x
     if spec[0] == "der":
         x = flat[spec[1]]
         if is_tensor_collection(x):
@@ -368,7 +402,8 @@ def gen_plumb_case(rng):
             in_dims = [Sym("lst")] + dims
     fd = py_bcast(in_dims, [Sym("tup")] + args)
     spec, out_dims = gen_outs(rng, flat_args, fd, B)
-    return {"kind": "plumbing", "args": args, "in_dims": in_dims, "out_spec": spec, "out_dims": out_dims}
+    return {"kind": "plumbing", "args": args, "in_dims": in_dims, "out_spec": spec, "out_dims": out_dims,
+            "named": rng.random() < 0.5, "locked": rng.random() < 0.35}
 
 
 def to_sym(d):
@@ -380,24 +415,47 @@ def to_sym(d):
     return d
 
 
+def result_obs(got):
+    if got[0] != "ok":
+        return list(got[:2])
+    return ["ok", [tdobs(x) if is_tensor_collection(x) else [list(x.shape), x.reshape(-1).tolist()] if isinstance(x, torch.Tensor) else repr(x)
+                   for x in tree_flatten(got[1], is_leaf=is_tensor_collection)[0]]]
+
+
 def run_plumb_impl(case):
-    args = tuple(build_arg(a) for a in case["args"])
+    args = tuple(build_arg(a, case.get("named", False), case.get("locked", False)) for a in case["args"])
     flat_orig = tree_flatten(args, is_leaf=is_tensor_collection)[0]
+    before = [snapshot(x) for x in flat_orig]
     rec = {}
     spec = case["out_spec"]
+    # the flat arguments the function may write into: the tensordicts whose in_dim is None
+    fdims = py_bcast(to_sym(case["in_dims"]), [Sym("tup")] + to_sym(case["args"]))
+    writable = {i for i, d in enumerate(fdims or []) if d is None}
 
     def make_f(record):
         def f(*xs):
             flat = tree_flatten(xs, is_leaf=is_tensor_collection)[0]
             if record:
                 rec["inputs"] = [obs_input(x, o) for x, o in zip(flat, flat_orig)]
-            out = make_out(spec, flat)
+            out = make_out(spec, flat, writable)
             if record:
                 rec["outs"] = describe_out(out)
             return out
         return f
-    got = call_site(lambda: torch.vmap(make_f(True), in_dims=build_dims(case["in_dims"]), out_dims=build_dims(case["out_dims"]))(*args))
-    return args, flat_orig, rec, got, make_f(False)
+    ind, outd = build_dims(case["in_dims"]), build_dims(case["out_dims"])
+    got = call_site(lambda: torch.vmap(make_f(True), in_dims=ind, out_dims=outd)(*args))
+    extra = {"changed": [], "repeat": None}
+    after1 = [snapshot(x) for x in flat_orig]
+    extra["changed"] += [{"call": 1, "arg": i, "before": b, "after": a} for i, (b, a) in enumerate(zip(before, after1)) if a != b]
+    # the identical call once more on the same objects (locked tensordicts reuse their memoised views)
+    f2 = make_f(False)
+    got2 = call_site(lambda: torch.vmap(f2, in_dims=ind, out_dims=outd)(*args))
+    after2 = [snapshot(x) for x in flat_orig]
+    extra["changed"] += [{"call": 2, "arg": i, "before": b, "after": a} for i, (b, a) in enumerate(zip(before, after2)) if a != b]
+    r1, r2 = result_obs(got), result_obs(got2)
+    if r1 != r2:
+        extra["repeat"] = {"first": r1 if r1[0] != "ok" else "ok", "second": r2 if r2[0] != "ok" else "ok (different result)"}
+    return args, flat_orig, rec, got, make_f(False), extra
 
 
 def plumb_oracle(R, case, args, flat_orig, got, f):
@@ -427,9 +485,10 @@ def plumb_oracle(R, case, args, flat_orig, got, f):
         return next(it)
     per = []
     for j in range(B):
-        leaves = [o if d is None else take(o, d, j) for o, d in zip(flat_orig, norm)]
+        leaves = [(o.clone(False) if is_tensor_collection(o) else o) if d is None else take(o, d, j) for o, d in zip(flat_orig, norm)]
         per.append(tree_flatten(f(*rebuild(argtree, iter(leaves))), is_leaf=is_tensor_collection)[0])
-    outtree = describe_out(f(*rebuild(argtree, iter([o if d is None else take(o, d, 0) for o, d in zip(flat_orig, norm)]))))
+    outtree = describe_out(f(*rebuild(argtree, iter([(o.clone(False) if is_tensor_collection(o) else o) if d is None else take(o, d, 0)
+                                                     for o, d in zip(flat_orig, norm)]))))
     od = to_sym(case["out_dims"])
     if isinstance(outtree, list) and outtree[0] in ("td", "ten") and isinstance(od, list):
         # a single tensor / tensordict output: out_dims may be a 1-tuple
@@ -440,9 +499,11 @@ def plumb_oracle(R, case, args, flat_orig, got, f):
         fod = py_bcast(od, outtree)
     if fod is None or any(not (d is None or isinstance(d, int)) for d in fod):
         return
-    want = []
+    want, want_names = [], []
     for p, o in enumerate(fod):
         x0 = per[0][p]
+        want_names.append(None if not is_tensor_collection(x0) else list(x0.names) if o is None
+                          else stacked_names(x0.names, o, x0.batch_dims + 1))
         if o is None:
             if is_tensor_collection(x0) or (isinstance(x0, torch.Tensor) and len(per) > 1 and not all(torch.equal(x0, q[p]) for q in per)):
                 return
@@ -469,6 +530,11 @@ def plumb_oracle(R, case, args, flat_orig, got, f):
         return h == w
     if len(have) != len(want) or not all(same(h, w) for h, w in zip(have, want)):
         R.oracle_fail("vmap-plumbing:result", case, {"outputs": len(have)}, dict(sig, what="wrong"))
+        return
+    # dim names of every tensordict output (each output its own out_dim; the same object may be returned more than once)
+    have_names = [list(h.names) if is_tensor_collection(h) else None for h in have]
+    if have_names != want_names or any(is_tensor_collection(h) and len(h.names) != h.batch_dims for h in have):
+        R.oracle_fail("vmap-plumbing:names", case, {"have": have_names, "want": want_names}, dict(sig, what="names"))
 
 
 def check_plumbing(R):
@@ -477,8 +543,20 @@ def check_plumbing(R):
     cases, lines1, impl = [], [], []
     for _ in range(n):
         case = gen_plumb_case(rng)
-        args, flat_orig, rec, got, f = run_plumb_impl(case)
+        args, flat_orig, rec, got, f, extra = run_plumb_impl(case)
         R.case(("plumb", repr(case)), nontrivial=len(case["args"]) > 1 or case["out_spec"][0] in ("tup", "lst"))
+        R.count("plumbing:" + ("named" if case["named"] else "unnamed") + ("+locked" if case["locked"] else ""))
+        # input integrity: after the call every argument is what it was (the generated functions write only NEW entries, and only
+        # into un-batched tensordict arguments, i.e. into the private copy vmap hands over)
+        if extra["changed"]:
+            c0 = extra["changed"][0]
+            diff = [k for k in c0["before"][1] if c0["before"][1][k] != c0["after"][1].get(k)] if c0["before"][0] == "td" else ["value"]
+            R.oracle_fail("vmap-plumbing:input-changed", case, {"call": c0["call"], "flat_arg": c0["arg"], "differs_in": diff,
+                                                                "before": {k: c0["before"][1][k] for k in diff} if c0["before"][0] == "td" else None,
+                                                                "after": {k: c0["after"][1].get(k) for k in diff} if c0["before"][0] == "td" else None},
+                          {"kind": "plumbing", "what": "input-changed"})
+        if extra["repeat"]:
+            R.oracle_fail("vmap-plumbing:repeated-call-differs", case, extra["repeat"], {"kind": "plumbing", "what": "repeat"})
         cases.append(case)
         impl.append((rec, got))
         lines1.append(sx([Sym("plumb"), case["in_dims"], case["args"], case["out_dims"]]))
@@ -719,11 +797,137 @@ def check_lazy_ops(R):
         R.traces += 1
 
 
+# ------------------------------------------------------------------------------------------------ named tensordicts, reused
+def named_subject(case):
+    shape = case["shape"]
+    n = prod(shape)
+    td = TensorDict({"a": torch.arange(n * 2, dtype=torch.int64).reshape(shape + [2]) + 1,
+                     "n": TensorDict({"b": torch.arange(n, dtype=torch.int64).reshape(shape) * 3}, batch_size=shape)},
+                    batch_size=shape, names=[None if x < 0 else f"n{x}" for x in case["names"]])
+    return td.lock_() if case["locked"] else td
+
+
+def gen_reuse_case(rng):
+    rank = rng.choice([1, 2, 2, 3])
+    shape = [rng.choice([1, 2, 3]) for _ in range(rank)]
+    names = [(-1 if rng.random() < 0.2 else i) for i in range(rank)]
+    if all(x < 0 for x in names):
+        names[0] = 0
+    steps = []
+    for _ in range(rng.choice([2, 2, 3, 4])):
+        x = rng.random()
+        i = rng.randrange(-rank, rank)
+        if x < 0.45:
+            steps.append(["id", i, rng.randrange(-rank, rank)])
+        elif x < 0.75:
+            steps.append(["twice", i, rng.randrange(-rank, rank), rng.randrange(-rank, rank)])
+        else:
+            steps.append(["none-write", rng.randrange(-(rank + 1), rank + 1)])
+    return {"kind": "named-reuse", "shape": shape, "names": names, "locked": rng.random() < 0.5, "steps": steps}
+
+
+def run_reuse_impl(case):
+    """per step: what vmap gave, what the per-sample loop gives (names: the sample's names with None at out_dim), and whether
+    the tensordict is still what it was before the first call"""
+    td = named_subject(case)
+    rank = len(case["shape"])
+    before = snapshot(td)
+    x = torch.arange(2, dtype=torch.int64) * 100
+    out = []
+
+    def fw(c, v):
+        c["z"] = c["a"] + v
+        return c
+    for st in case["steps"]:
+        if st[0] == "id":
+            ind = st[1] % rank
+            got = call_site(lambda: [torch.vmap(lambda t: t, st[1], st[2])(td)])  # noqa: B023
+            smp = [take(td, ind, j) for j in range(case["shape"][ind])]
+            want = [(torch.stack(smp, st[2]), stacked_names(smp[0].names, st[2], rank))]
+        elif st[0] == "twice":
+            ind = st[1] % rank
+            got = call_site(lambda: list(torch.vmap(lambda t: (t, t), st[1], (st[2], st[3]))(td)))  # noqa: B023
+            smp = [take(td, ind, j) for j in range(case["shape"][ind])]
+            want = [(torch.stack(smp, o), stacked_names(smp[0].names, o, rank)) for o in (st[2], st[3])]
+        else:
+            got = call_site(lambda: [torch.vmap(fw, (None, 0), st[1])(td, x)])  # noqa: B023
+            smp = [fw(td.clone(False), x[j]) for j in range(2)]
+            want = [(torch.stack(smp, st[1]), stacked_names(td.names, st[1], rank + 1))]
+        res = {"step": st, "raised": None if got[0] == "ok" else list(got[1:]), "bad": []}
+        if got[0] == "ok":
+            res["names"] = [list(g.names) for g in got[1]]
+            for k, (g, (w, wn)) in enumerate(zip(got[1], want)):
+                if progs.observe(g) != progs.observe(w):
+                    res["bad"].append({"output": k, "what": "values"})
+                if list(g.names) != wn or len(g.names) != g.batch_dims or list(g.get("n").names) != wn:
+                    res["bad"].append({"output": k, "what": "names", "have": list(g.names), "nested": list(g.get("n").names), "want": wn})
+        now = snapshot(td)
+        if now != before:
+            res["input_changed"] = {k: [before[1][k], now[1].get(k)] for k in before[1] if before[1][k] != now[1].get(k)}
+        out.append(res)
+    views = {}
+    if case["locked"] and getattr(td, "_cache", None):
+        for (_, kw), ent in td._cache.get("_add_batch_dim", {}).items():
+            views[dict(kw)["in_dim"]] = list(ent[0].names)
+    return out, views
+
+
+def check_named_reuse(R):
+    rng = R.rng
+    n = 120 if R.quick else 3000
+    cases = [gen_reuse_case(rng) for _ in range(n)]
+    cases += [  # the three scenarios of the seeded change C19-3
+        {"kind": "named-reuse", "shape": [2, 3], "names": [0, 1], "locked": False, "steps": [["none-write", 0], ["none-write", 0]]},
+        {"kind": "named-reuse", "shape": [2, 3], "names": [0, 1], "locked": False, "steps": [["twice", 0, 0, 1]]},
+        {"kind": "named-reuse", "shape": [2, 3], "names": [0, 1], "locked": True, "steps": [["id", 0, 0], ["id", 0, 1]]}]
+    lines, owner = [], []
+    for ci, case in enumerate(cases):
+        rank = len(case["shape"])
+        nm = [Sym("some"), case["names"]]
+        for si, st in enumerate(case["steps"]):
+            if st[0] != "none-write":
+                lines.append(sx([Sym("names-seq"), rank, nm, st[1], list(st[2:])]))
+                owner.append((ci, si))
+    m = dict(zip(owner, R.model(lines)))
+
+    def cn(l):
+        return [-1 if x is None else int(x[1:]) for x in l]
+    for ci, case in enumerate(cases):
+        R.case(("named-reuse", repr(case)), nontrivial=True)
+        R.count("named-reuse:" + ("locked" if case["locked"] else "unlocked"))
+        got = call_site(lambda: run_reuse_impl(case))  # noqa: B023
+        if got[0] != "ok":
+            R.oracle_fail("vmap-named-reuse:harness", case, {"error": list(got[1:])}, {"kind": "named-reuse", "what": "reference-raises"})
+            continue
+        steps, views = got[1]
+        for si, res in enumerate(steps):
+            R.count("named-reuse-step:" + res["step"][0])
+            sig = {"kind": "named-reuse", "step": res["step"][0], "locked": case["locked"]}
+            if res["raised"]:
+                R.oracle_fail("vmap-named-reuse:raises", case, {"step": si, "error": res["raised"]}, dict(sig, what="raises", err=res["raised"][0]))
+            elif res["bad"]:
+                R.oracle_fail("vmap-named-reuse:" + res["bad"][0]["what"], case, {"step": si, "outputs": res["bad"]}, dict(sig, what=res["bad"][0]["what"]))
+            if res.get("input_changed"):
+                R.oracle_fail("vmap-named-reuse:input-changed", case, {"step": si, "before_after": res["input_changed"]}, dict(sig, what="input-changed"))
+            mo = m.get((ci, si))
+            if mo is not None and not res["raised"]:
+                want = [x[1] if x != "none" else [-1] * (len(case["shape"])) for x in mo[1]] if isinstance(mo, list) and mo[0] == "ok" else mo
+                if [cn(x) for x in res["names"]] != want:
+                    R.mismatch("vmap-names-seq", case, [cn(x) for x in res["names"]], mo)
+            R.traces += 1
+        # the memoised views of the locked tensordict keep their names (model: second component of unbatch_seq)
+        for ind, vn in views.items():
+            keep = [x for k, x in enumerate(case["names"]) if k != ind]
+            if cn(vn) != (keep if any(x >= 0 for x in keep) else [-1] * len(keep)):
+                R.mismatch("vmap-names-view", case, {"in_dim": ind, "view_names": cn(vn)}, keep)
+
+
 def run(R):
     check_elements(R)
     check_plumbing(R)
     check_memo(R)
     check_lazy_ops(R)
+    check_named_reuse(R)
 
 
 def replay(case):
@@ -737,11 +941,15 @@ def replay(case):
         print("loop:", call_site(lambda: progs.observe(torch.stack([take(td, ind, j) for j in range(case["bs"][ind])], case["out_dim"]))))
     elif k == "plumbing":
         case = dict(case, args=to_sym(case["args"]), in_dims=to_sym(case["in_dims"]), out_dims=to_sym(case["out_dims"]))
-        args, flat_orig, rec, got, f = run_plumb_impl(case)
+        args, flat_orig, rec, got, f, extra = run_plumb_impl(case)
+        print("arguments changed by the call:", extra["changed"], "identical second call:", extra["repeat"] or "same result")
         print("function received:", rec.get("inputs"), "returned:", rec.get("outs"))
         print("vmap:", got if got[0] != "ok" else [obs_result(x) for x in tree_flatten(got[1], is_leaf=is_tensor_collection)[0]])
     elif k == "memo":
         print("per call (function saw), stale calls, cache keys:", call_site(lambda: run_memo_impl(case)))
+    elif k == "named-reuse":
+        for res in run_reuse_impl(case)[0]:
+            print(res)
     elif k == "lazy-op":
         shape, sd, f = tuple(case["shape"]), case["stack_dim"], LAZY_OPS[case["op"]][1]
         ind = case["in_dim"] % len(shape)
